@@ -265,6 +265,11 @@ def big():
     yield NL(1, [], [('INV1', ('i0',))] + [('INV1' if k % 3 else 'BUF1', (f'g{k - 1}',)) for k in range(1, 300)], ['g299', 'g150', 'g256'])
     yield NL(2, [], [('BUF1', ('i0',))] + [(('XOR2', 'NAND2', 'OR2')[k % 3], ('g0', 'i1')) for k in range(1, 301)], ['g300', 'g1', 'g257'])
     yield NL(1, [('dff', 'g259')], [('XOR2', ('i0', 'q0'))] + [('AND2' if k % 2 else 'OR2', (f'g{k - 1}', 'i0')) for k in range(1, 260)], ['g259', 'n0'])
+    # ... and the smallest ones: no input at all, no output at all, no gate at all
+    yield NL(0, [('dff', 'n0')], [], ['q0'])                                  # a flip-flop fed by its own inverted output, no input
+    yield NL(0, [], [('__const1__', ()), ('INV1', ('g0',))], ['g0', 'g1'])      # constants only
+    yield NL(1, [('dff', 'i0'), ('latch', 'q0')], [], [])                       # no output port: only state elements capture
+    yield NL(2, [], [], ['i1', 'i0'])                                         # ports wired straight through
 
 
 def take_slice(gen, nslices, which):
